@@ -375,8 +375,8 @@ namespace plan
           t += s.text + "\n";
       return t;
     }
-    // another equivalent formulation: one top-level fact is stated twice (under a second name, right after the original). The
-    // second copy can always be unified with the first, so the verdict must not change. Facts on reusable resources are left
+    // another equivalent formulation: one top-level fact is stated twice (under a second name, right after the original, every
+    // parameter equated with the original's). The second copy can always be unified with the first, so the verdict must not change. Facts on reusable resources are left
     // alone (`Use` atoms never unify: stating one twice does double the usage). Empty when there is no such fact
     std::string variant_fact_twice(uint64_t seed) const
     {
@@ -401,6 +401,15 @@ namespace plan
       for (auto &s : m.stmts)
         if (s.k == Stmt::ASSERT)
           t += s.text + "\n";
+      // the second copy is the SAME fact: every parameter equal (a copy with free parameters of its own would be one more fact)
+      const PredD &pd = m.preds[pick->item->pred];
+      std::vector<std::string> ps = pd.rparams;
+      if (p_interval(pd))
+        ps.push_back("start"), ps.push_back("end");
+      else if (p_impulse(pd))
+        ps.push_back("at");
+      for (auto &a : ps)
+        t += pick->item->local + "_again." + a + " == " + pick->item->local + "." + a + ";\n";
       return t;
     }
     // another equivalent formulation: every disjunction statement gets one more disjunct that can never be chosen (a goal
